@@ -13,6 +13,7 @@ import (
 type Fact struct {
 	Expr ast.Expr // leaf condition as written (go/cfg has already split &&, || and !)
 	Pol  bool
+	At   int    // number of steps executed when the condition was assumed (set for State.Taken)
 	key  string // canonical key (== form, variable identity)
 	cpol bool   // polarity of the canonical form
 	vars map[types.Object]bool
@@ -273,7 +274,7 @@ func (w *Walker) expand(st *State, e ast.Expr, pol bool) []*State {
 		}
 	}
 	if w.assume(st, e, pol) {
-		st.Taken = append(st.Taken, Fact{Expr: e, Pol: pol})
+		st.Taken = append(st.Taken, Fact{Expr: e, Pol: pol, At: len(st.Steps)})
 		return []*State{st}
 	}
 	return nil
